@@ -32,7 +32,7 @@ PROBES = ['mode_interp', 'mode_largest', 'mode_largest+smallest', 'mode_all', 'm
 
 def budgets(tier):
     if tier == 'quick':
-        return {'runs': 6000, 'max_wall': 115, 'chunk': 15}
+        return {'runs': 4000, 'max_wall': 115, 'chunk': 15}
     return {'runs': 25000, 'max_wall': 1700, 'chunk': 10}
 
 
@@ -186,29 +186,65 @@ def _execute(sc, sim, out):
             out.violate('curve-count', '%s drew %d curves for %d selected fits x %d apertures shown' % (what, len(segs), k, len(shown)), key=mode)
             break
         bad = None
-        for g in range(k):            # groups are drawn from the worst selected fit to the best
-            fit_i = k - 1 - g
+        ns = len(shown)
+        blocks = [[np.asarray(x, float) for x in segs[g * ns:(g + 1) * ns]] for g in range(k)]   # curves are added fit by fit
+
+        def block_fits(block, fit_i):
+            """does this group of curves belong to fit fit_i? -> (True, None) or (False, why)"""
             pred = 10. ** mf[fit_i] * 1e-26 * nu
-            for a_i, a in enumerate(shown):
-                sg = np.asarray(segs[g * len(shown) + a_i], float)
-                for j in range(nf):
-                    if a is not None and theta[j] != a:
-                        continue
-                    kk = int(np.argmin(np.abs(sg[:, 0] - fw[j])))
-                    out.compared('curve-point')
-                    if abs(sg[kk, 0] - fw[j]) > 1e-6 * fw[j]:
-                        bad = ('curve-point', '%s: curve has no vertex at the fitted wavelength %.6g um' % (what, fw[j]))
+            for a in shown:
+                js = [j for j in range(nf) if a is None or theta[j] == a]
+                why = None
+                for sg in block:
+                    ok = True
+                    for j in js:
+                        kk = int(np.argmin(np.abs(sg[:, 0] - fw[j])))
+                        if abs(sg[kk, 0] - fw[j]) > 1e-6 * fw[j]:
+                            ok, why = False, 'curve has no vertex at the fitted wavelength %.6g um' % fw[j]
+                            break
+                        dev = abs(sg[kk, 1] / pred[j] - 1)
+                        if not dev <= 1e-3:
+                            ok = False
+                            why = 'aperture %s: at %.6g um the curve is at %.6g, the stored prediction of fit %d (model %s) is %.6g (rel. dev. %.3g)' % (
+                                'interp' if a is None else '%.4g"' % a, fw[j], sg[kk, 1], fit_i + 1, str(info.model_name[fit_i]).strip(), pred[j], dev)
+                            break
+                    if ok:
+                        why = None
                         break
-                    dev = abs(sg[kk, 1] / pred[j] - 1)
-                    out.dev('curve-point', dev / 1e-3)
-                    if not dev <= 1e-3:
-                        bad = ('curve-point', '%s: curve group %d (should be fit %d, model %s), aperture %s: at %.6g um the curve is at %.6g, the stored prediction is %.6g (rel. dev. %.3g)' % (
-                            what, g, fit_i + 1, str(info.model_name[fit_i]).strip(), 'interp' if a is None else '%.4g"' % a, fw[j], sg[kk, 1], pred[j], dev))
-                        break
-                if bad:
-                    break
-            if bad:
-                break
+                if why is not None:
+                    return False, why
+            return True, None
+
+        def max_dev(block, fit_i):
+            pred = 10. ** mf[fit_i] * 1e-26 * nu
+            m_ = 0.0
+            for a in shown:
+                best = np.inf
+                for sg in block:
+                    d_ = 0.0
+                    for j in [j for j in range(nf) if a is None or theta[j] == a]:
+                        kk = int(np.argmin(np.abs(sg[:, 0] - fw[j])))
+                        d_ = max(d_, abs(sg[kk, 1] / pred[j] - 1))
+                    best = min(best, d_)
+                m_ = max(m_, best)
+            return m_
+        out.compared('curve-point', k * nf)
+        okl, why = block_fits(blocks[-1], 0)
+        if not okl:
+            other = [f_ for f_ in range(1, k) if block_fits(blocks[-1], f_)[0]]
+            bad = ('best-not-last' if other else 'curve-point',
+                   '%s: the curves drawn last do not belong to the best fit%s: %s' % (what, ' but to fit %d' % (other[0] + 1) if other else '', why))
+        else:
+            out.dev('curve-point', max_dev(blocks[-1], 0) / 1e-3)
+            # the other groups may come in any order: look for ANY one-to-one assignment of groups to the other fits
+            # (k <= 5, so all permutations can be tried; near-identical models make a greedy choice unsafe)
+            import itertools
+            table = [[block_fits(blocks[g], f_)[0] for f_ in range(1, k)] for g in range(k - 1)]
+            if not any(all(table[g][perm[g]] for g in range(k - 1)) for perm in itertools.permutations(range(k - 1))):
+                g_bad = next((g for g in range(k - 1) if not any(table[g])), 0)
+                f_des = k - 1 - g_bad          # the fit this group belongs to when fits are drawn from worst to best
+                bad = ('curve-point', '%s: the curve groups before the last cannot be matched one-to-one to the other selected fits; group %d against fit %d: %s' % (
+                    what, g_bad + 1, f_des + 1, block_fits(blocks[g_bad], f_des)[1]))
         if k > 1:
             out.probe('best_fit_last_checked')
         if bad:
